@@ -99,3 +99,36 @@ package redisemu
 //@ func respValue.toNative
 //@ trusted conversion of a RESP value to plain Go values (tracing)
 //@ pure
+
+// C01: a one-line reply (simple string, error) never carries a CR or LF of its
+// own, whatever text it was built from (error messages quote client input)
+//@ func respLine
+//@ prop C01
+//@ mode int
+//@ safetyprop C13
+//@ modifies alloc
+//@ loop 1 invariant len(b) == len(text)
+//@ loop 1 invariant [C01] clean.sofar: allsel(k, 0, ri1, b[k] != 13 && b[k] != 10)
+//@ loop 1 invariant [C01] kept.sofar: allsel(k, 0, ri1, b[k] == text[k] || (b[k] == 32 && (text[k] == 13 || text[k] == 10))) && allsel(k, ri1, len(b), b[k] == text[k])
+//@ ensures [C01] clean: len(result) == len(text) && allsel(k, 0, len(result), result[k] != 13 && result[k] != 10)
+//@ ensures [C01] kept: allsel(k, 0, len(result), result[k] == text[k] || (result[k] == 32 && (text[k] == 13 || text[k] == 10)))
+
+// text free of CR and LF
+//@ pred lineClean(s string) = allsel(k, 0, len(s), s[k] != 13 && s[k] != 10)
+
+// set when anything but clean text or the line terminator itself is written
+// while a one-line reply is being produced
+//@ ghost gLineBroken bool
+
+//@ func strings.Builder.WriteString
+//@ trusted appends s to the builder
+//@ modifies ghost.gLineBroken Builder
+//@ effect if !(lineClean(s) || s == "\r\n") : gLineBroken = true
+
+//@ func respValue.serializeSimpleString
+//@ prop C01
+//@ safetyprop C13
+//@ requires sb != nil && !gLineBroken
+//@ modifies ghost.gLineBroken Builder alloc
+//@ use respLine.clean
+//@ ensures [C01] one.line: !gLineBroken
